@@ -6,35 +6,55 @@ import Vuego.Lemmas.EvalInv
 namespace Vuego.Props.C06
 open Go Vuego
 
-/-- (1) PER-INSTANCE: what an include evaluates depends on the slot content supplied on ITS OWN tag only — never on the slot scope
-    of the surrounding component instance (content supplied to one instance cannot appear in another). -/
-theorem slot_scope_is_per_instance (W : World) (f : Nat) (ctx : Ctx) (other : Option SlotScope) (st : St) (attrs : List Attr) (kids : List Node) (vars : Scope) :
-    evalInclude W f { ctx with slots := other } st attrs kids vars = evalInclude W f ctx st attrs kids vars := by
-  cases f with
-  | zero => rfl
-  | succ f => simp [evalInclude, formatChain]
+/-- (1) PER-INSTANCE: a component is evaluated with the content supplied on ITS OWN tag as the innermost slot scope; the scopes of the
+    surrounding instances follow it and are consulted by nobody's `<slot>` lookup (see (2)) — they only serve `<slot>` elements that occur
+    INSIDE supplied content, which belong to the includer. -/
+theorem include_pushes_own_slot_content (W : World) (f : Nat) (ctx : Ctx) (st : St) (attrs : List Attr) (kids : List Node) (vars fm : Scope) (dom : List Node)
+    (hd : ¬ ctx.chain.length > includeLimit) (hf : W.files.lookup (getAttr attrs (S "include")) = some (fm, dom))
+    (hr : wrapperRequired (resolveTagsList W.comps (assignSeenAttrs (getAttr attrs (S "include")) dom)) ((setMany (st.stack.push vars) fm).envMap W.P.cfg) = none) :
+    evalInclude W (f + 1) ctx st attrs kids vars =
+      bindR (evalList W f { slots := extractSlotContent kids :: ctx.slots, chain := ctx.chain ++ [getAttr attrs (S "include")] }
+              { st with stack := setMany (st.stack.push vars) fm } (resolveTagsList W.comps (assignSeenAttrs (getAttr attrs (S "include")) dom)))
+        (fun res st1 => .ok (res, { st1 with stack := st1.stack.pop })) := by
+  simp only [evalInclude, hd, ↓reduceIte, hf, hr]
 
-/-- (2) a `<slot>` renders its fallback children exactly when nothing was supplied for its name … -/
-theorem slot_fallback_when_unsupplied (W : World) (f : Nat) (ctx : Ctx) (st : St) (attrs : List Attr) (kids : List Node)
-    (h : (ctx.slots.bind (fun sc => sc.lookup (if getAttr attrs (S "name") == [] then S "default" else getAttr attrs (S "name")))) = none) :
+/-- (2) a `<slot>` looks its name up in the INNERMOST scope only (the content supplied on this instance's own tag): when that has nothing
+    for the name the fallback children are rendered — whatever the surrounding instances were given (`outer` is arbitrary) … -/
+theorem slot_fallback_when_unsupplied (W : World) (f : Nat) (ctx : Ctx) (st : St) (attrs : List Attr) (kids : List Node) (sc : SlotScope) (outer : List SlotScope)
+    (hc : ctx.slots = sc :: outer)
+    (h : sc.lookup (if getAttr attrs (S "name") == [] then S "default" else getAttr attrs (S "name")) = none) :
     evalSlot W (f + 1) ctx st attrs kids = if !kids.isEmpty then evalList W f ctx st kids else .ok ([], st) := by
-  simp only [evalSlot, h]
+  simp only [evalSlot, hc, h]
+
+theorem slot_fallback_at_top_level (W : World) (f : Nat) (ctx : Ctx) (st : St) (attrs : List Attr) (kids : List Node) (hc : ctx.slots = []) :
+    evalSlot W (f + 1) ctx st attrs kids = if !kids.isEmpty then evalList W f ctx st kids else .ok ([], st) := by
+  simp only [evalSlot, hc]
 
 /-- … and when content WAS supplied the fallback is never evaluated: plain children are evaluated in the includer-visible stack, a slot
-    template in a fresh scope holding the slot's props, popped afterwards -/
-theorem slot_supplied_plain (W : World) (f : Nat) (ctx : Ctx) (st : St) (attrs : List Attr) (kids : List Node) (content : SlotContent)
-    (h : (ctx.slots.bind (fun sc => sc.lookup (if getAttr attrs (S "name") == [] then S "default" else getAttr attrs (S "name")))) = some content)
+    template in a fresh scope holding the slot's props, popped afterwards. The supplied content is the includer's: it is evaluated with the
+    OUTER slot scopes, so a `<slot>` inside it cannot reach this instance's own content again (no self-recursion). -/
+theorem slot_supplied_plain (W : World) (f : Nat) (ctx : Ctx) (st : St) (attrs : List Attr) (kids : List Node) (sc : SlotScope) (outer : List SlotScope) (content : SlotContent)
+    (hc : ctx.slots = sc :: outer)
+    (h : sc.lookup (if getAttr attrs (S "name") == [] then S "default" else getAttr attrs (S "name")) = some content)
     (ht : content.tmpl = none) :
-    evalSlot W (f + 1) ctx st attrs kids = evalList W f ctx st content.nodes := by
-  simp only [evalSlot, h, ht]
+    evalSlot W (f + 1) ctx st attrs kids = evalList W f { ctx with slots := outer } st content.nodes := by
+  simp only [evalSlot, hc, h, ht]
 
-theorem slot_supplied_template (W : World) (f : Nat) (ctx : Ctx) (st : St) (attrs : List Attr) (kids : List Node) (content : SlotContent) (tk : List Attr × List Node)
-    (h : (ctx.slots.bind (fun sc => sc.lookup (if getAttr attrs (S "name") == [] then S "default" else getAttr attrs (S "name")))) = some content)
+theorem slot_supplied_template (W : World) (f : Nat) (ctx : Ctx) (st : St) (attrs : List Attr) (kids : List Node) (sc : SlotScope) (outer : List SlotScope) (content : SlotContent) (tk : List Attr × List Node)
+    (hc : ctx.slots = sc :: outer)
+    (h : sc.lookup (if getAttr attrs (S "name") == [] then S "default" else getAttr attrs (S "name")) = some content)
     (ht : content.tmpl = some tk) :
     evalSlot W (f + 1) ctx st attrs kids =
-      bindR (evalList W f ctx { st with stack := slotScopeStack st.stack (scopedVarName tk.1) (slotProps W.P (st.stack.envMap W.P.cfg) attrs) } tk.2)
+      bindR (evalList W f { ctx with slots := outer } { st with stack := slotScopeStack st.stack (scopedVarName tk.1) (slotProps W.P (st.stack.envMap W.P.cfg) attrs) } tk.2)
         (fun res st1 => .ok (res, { st1 with stack := st1.stack.pop })) := by
-  simp only [evalSlot, h, ht]
+  simp only [evalSlot, hc, h, ht]
+
+/-- the slot scopes available to supplied content are strictly fewer than those of the `<slot>` that renders it: a chain of slots rendering
+    slots' content ends after at most `ctx.slots.length` steps (the pinned code evaluated supplied content with the instance's own scope:
+    `<template include="c"><slot></slot></template>` recursed until the process died) -/
+theorem supplied_content_sees_fewer_scopes (ctx : Ctx) (sc : SlotScope) (outer : List SlotScope) (hc : ctx.slots = sc :: outer) :
+    ({ ctx with slots := outer } : Ctx).slots.length < ctx.slots.length := by
+  simp [hc]
 
 /-- (3) slot props: under the declared name the template sees ONE variable holding all props … -/
 theorem slot_props_named (s : Stack) (name : Str) (props : Scope) (hn : name ≠ []) (hd : destructuredNames name = none) :
